@@ -9,6 +9,7 @@ func ProfileFor(prop string) Profile {
 		p.WBind = 0
 	case "faults":
 		p.WFaultPass = 40
+		p.WCancelled = 10 // a share of the passes runs with an already cancelled context
 	case "midset":
 		p.WMidSet = 50
 		p.PairWrites = 35
@@ -106,6 +107,7 @@ func ProfileFor(prop string) Profile {
 		// has been computed once (so that later passes recompute it directly after the always node)
 		p.Prefix = []Op{{K: "NewVar", V: 2}, {K: "NewAlways", A: 0}, {K: "NewMap", F1: Fn1{2, 1}, A: 1}, {K: "Observe", A: 2}, {K: "Stabilize"}}
 		p.WFaultPass = 55
+		p.WCancelled = 8
 		p.AlwaysShare = 18
 		p.WBind = 8
 		p.WStabilize = 28
@@ -177,6 +179,14 @@ func ProfileFor(prop string) Profile {
 		p.WSet = 15
 		p.WStabilize = 25
 		p.WAddRemove = 53
+	case "scoperead":
+		// top-level nodes built on handles to nodes created inside bind scopes (live ones, and ones
+		// whose generation has been discarded): when the scope is discarded the readers are invalidated
+		p.ScopeRead = 25
+		p.Inner = 20
+		p.WBind = 35
+		p.WSet = 32
+		p.WObserve = 18
 	case "deadobs":
 		// like inner, and a share of the Observe operations goes to nodes of discarded generations
 		p.Inner = 30
